@@ -459,6 +459,29 @@ def phase_protocol(ctx, py: PyRepo):
         ctx.ob('phase-protocol', meth, found, f'{meth} never calls interpreter.{trans}()', py.where('proof', fn))
 
 
+def judgement_agreement(ctx, py):
+    """the generator applies Generalization when ITS freshness judgement holds, the checker when the documented one holds (which the
+    Rust code implements: C05).  Whenever the generator says "fresh" the documented judgement must say so too, per constructor and
+    on every valuation - otherwise the toolkit accepts a proof expression whose serialisation the checker rejects."""
+    from ..core import decide, pypattern
+    from ..spec import judgements as SJ
+    n = 0
+    for c in pypattern.pattern_classes(py):
+        if c.name == 'Instantiate' or 'evar_is_free' not in c.methods:
+            continue                      # the notation node answers through its expansion (C12)
+        doc = SJ.DOC.get((c.name, 'e_fresh'))
+        if doc is None:
+            continue
+        df = pypattern.bool_method_df(py, c.name, 'evar_is_free')
+        cex, _n = decide.implies(df, doc, SJ.closure, SJ.consistent)
+        n += 1
+        ctx.ob('judgement-agreement', f'evar_is_free/{c.name}', cex is None,
+               '' if cex is None else f'{c.name}.evar_is_free answers "fresh" where the documented e_fresh of {c.name} '
+               f'({decide.f_show(doc)}) does not, at {cex}: exists_generalization succeeds in the generator and the checker refuses the step',
+               py.where(c.module, c.methods['evar_is_free']))
+    ctx.floor('judgement-agreement', 10)
+
+
 def slot_budget(ctx, py):
     """`Load` addresses memory with one byte, so a serialisation that needs more than 256 slots cannot be written at all
     (bytes([..]) raises).  Slots are taken by published axioms / saved proofs (memory at analysis time) and by one Save per pattern
@@ -554,6 +577,7 @@ def run(ctx):
     axioms_three_way(ctx, w, rust_arms)
     phase_protocol(ctx, py)
     slot_budget(ctx, py)
+    judgement_agreement(ctx, py)
     # generator and checker must compute the same pattern for Instantiate and for a resolved substitution: both follow the textbook
     # table (shared with C11 / C05); a checker that instantiates differently rejects the claim the generator published
     from . import c11
